@@ -1439,7 +1439,7 @@ Section Fragment.
     end.
 
   Definition is_container (t : dt) : bool :=
-    match t with TList _ | TMap _ | TNode _ _ => true | _ => false end.
+    match t with TList _ | TMap _ | TNode _ _ | TRecord _ _ => true | _ => false end.
 
   (* the data of a map key, its marker removed *)
   Definition key_data (k : dt) : option dv :=
